@@ -268,16 +268,18 @@ def history(name, seed, hist):
     return {'template': name, 'seed': seed, 'history': hist}, fails
 
 
-def verbosity(name, seed):
+def verbosity(name, seed, heuristic=None):
     fails = []
     spy = Spy().install()
     try:
         fps = []
+        kw = {'dimension_reduction_heuristic': heuristic} if heuristic else {}
         for v in (0, 1, 2):
             pep, h = models.build(name, seed)
             with quiet():
-                t = pep.solve(verbose=v, solver='CLARABEL')
-            fps.append((t, fingerprint(pep, spy.wrappers[-1])))
+                t = pep.solve(verbose=v, solver='CLARABEL', **kw)
+            fps.append((t, fingerprint(pep, spy.wrappers[-1])) if not heuristic else
+                       (t, (fingerprint(pep, spy.wrappers[-1]), np.round(np.asarray(pep.G_value), 9).tobytes())))
         if not (fps[0][1] == fps[1][1] == fps[2][1]):
             fails.append(('C12', 'verbosity.input', 'solver input depends on the verbosity'))
         if max(abs(fps[0][0] - x[0]) for x in fps) > 1e-9:
@@ -461,6 +463,22 @@ def partitions(seed):
                 break
         if any(c.equality_or_inequality != 'equality' for c in new):
             fails.append(('C15', 'orthogonality.sense', 'an orthogonality relation is not an equality'))
+    # a second partition with the SAME number of blocks is another partition: its own blocks, relations among its own blocks only
+    other = pep.declare_block_partition(d=d)
+    if other is part:
+        fails.append(('C15', 'independent_partitions', 'declaring a second partition with %d blocks returns the first one' % d))
+    else:
+        p0 = decomposed[0]
+        mine, theirs = [part.get_block(p0, k) for k in range(d)], [other.get_block(p0, k) for k in range(d)]
+        if d > 1 and any(a is b for a in mine for b in theirs):
+            fails.append(('C15', 'independent_partitions', 'two partitions share block objects for one point'))
+        n0 = len(other.list_of_constraints)
+        other.add_partition_constraints()
+        got = len(other.list_of_constraints) - n0
+        if got != d * (d - 1) // 2:
+            fails.append(('C15', 'independent_partitions', 'the second partition (one decomposed point) imposes %d relations, %d required' % (got, d * (d - 1) // 2)))
+        if len(part.blocks_dict) != len(decomposed):
+            fails.append(('C15', 'independent_partitions', 'decomposing a point in the second partition changed the first one'))
     return {'seed': seed, 'd': d, 'decomposed': len(decomposed), 'scenario': 'partition'}, fails
 
 
